@@ -19,9 +19,12 @@ _runs = 0
 
 
 class MemTransport(asyncio.Transport):
-    def __init__(self, loop, proto, idx, log):
+    def __init__(self, loop, proto, idx, log, log_short=None):
         super().__init__()
         self.loop, self.proto, self.idx, self.log = loop, proto, idx, log
+        self.log_short = log_short
+        self.body_expected = 0      # Content-Length announced by the request head written last
+        self.body_seen = 0          # body bytes written since that head
         self.out = bytearray()
         self.closing = False
         self.closed = False
@@ -32,10 +35,22 @@ class MemTransport(asyncio.Transport):
             return
         data = bytes(data)
         self.out += data
-        for m in re.finditer(rb"(?:GET|HEAD) (?:https?://[^/ ]+)?/(\d+) HTTP/1\.1\r\n", data):
+        pos = 0
+        for m in re.finditer(rb"(?:GET|HEAD|POST) (?:(?:https?|wss?)://[^/ ]+)?/(\d+) HTTP/1\.1\r\n", data):
             j = int(m.group(1))
+            self.body_seen += m.start() - pos
+            if self.reqs and self.body_seen < self.body_expected and self.log_short is not None:
+                # a new request head follows a request whose announced body was not (fully) written
+                self.log_short(self.idx, self.reqs[-1], self.body_seen, self.body_expected, j)
+            end = data.find(b"\r\n\r\n", m.start())
+            head = data[m.start():end + 4] if end >= 0 else data[m.start():]
+            cl = re.search(rb"\r\nContent-Length: (\d+)\r\n", head)
+            self.body_expected = int(cl.group(1)) if cl else 0
+            self.body_seen = 0
+            pos = m.start() + len(head)
             self.reqs.append(j)
             self.log(self.idx, j)
+        self.body_seen += len(data) - pos
 
     def writelines(self, l):
         for d in l:
@@ -108,6 +123,9 @@ class Run:
         if j < len(self.used):
             self.used[j].append(c)
         self.events.append(("write", c, j, len(self.ops) - 1))
+
+    def _log_short(self, c, prev_j, seen, expected, j):
+        self.events.append(("shortbody", c, prev_j, seen, expected, j, len(self.ops) - 1))
 
     def holder(self, c):
         """the exchange the harness considers to hold connection c right now (None = nobody):
@@ -239,7 +257,7 @@ def run_scenario(cfg, next_op, keyparams):
 
         async def _create_connection(self, req, traces, timeout):
             proto = self._factory()
-            tr = MemTransport(self._loop, proto, len(self.transports), R._log_write)
+            tr = MemTransport(self._loop, proto, len(self.transports), R._log_write, R._log_short)
             tr.key = req.connection_key
             proto.connection_made(tr)
             self.transports.append(tr)
@@ -317,15 +335,24 @@ async def do_op(R, op, keyparams):
         j = len(R.tasks)
         url, kw = keyparams(op[1], j)
         R.early = op[3] or None
-        R.meta.append({"key": op[1], "skip": op[2]})
+        ws = kw.pop("_ws", False)       # ws_connect instead of get
+        post = kw.pop("_post", 0)       # POST with a body of that many bytes and Expect: 100-continue
+        R.meta.append({"key": op[1], "skip": op[2], "ws": ws, "post": post})
         R.used.append([])
         R.resps.append(None)
         R.rtasks.append(None)
         R.events.append(("request", j, op[1]))
 
         async def go():
-            meth = R.session.head if op[2] else R.session.get
-            r = await meth(url, allow_redirects=False, **kw)
+            if ws:
+                w = await R.session.ws_connect(url, **kw)
+                R.resps[j] = w._response
+                return w
+            if post:
+                r = await R.session.post(url, data=b"B" * post, expect100=True, allow_redirects=False, **kw)
+            else:
+                meth = R.session.head if op[2] else R.session.get
+                r = await meth(url, allow_redirects=False, **kw)
             R.resps[j] = r
             return r
         R.tasks.append(loop.create_task(go()))
